@@ -25,6 +25,7 @@ import sys
 from concurrent.futures import ThreadPoolExecutor
 
 from ..lib import lean, repo
+from ..sim import pristine
 from ..translate import ipmitool as tr
 
 ID = 'C19'
@@ -825,8 +826,419 @@ def run_e2e(ctx, work):
 
 
 # ---------------------------------------------------------------------------------------------
+# histories: several calls on ONE Ipmitool object (settings changed in between), each call judged
+# on its own.  Executed in a pristine child process (harness/sim/pristine.py).
+
+LEVEL_WORDS = {2: 'user', 3: 'operator', 4: 'administrator'}
+DEFAULT_SETTINGS = {'host': '10.0.1.1', 'port': 623, 'level': 4, 'auth': None, 'serial_port': '/dev/ttyS0',
+                    'baud': 115200}
+
+
+def _jauth(a):
+    return None if a is None else [cps(a[0]), cps(a[1])]
+
+
+def _auth(j):
+    return None if j is None else (from_cps(j[0]), from_cps(j[1]))
+
+
+def exec_history(case):
+    """Run the steps of `case` on one Ipmitool object in THIS process.  Every command line the object
+    builds is executed by the real /bin/sh with the argv-printing stub; the call then gets the step's
+    canned ipmitool output.  -> {'stub': path, 'steps': [None | {cmd, argv, rc, stderr_captured, raised, ret}]}"""
+    work = Work()
+    try:
+        from pyipmi.interfaces.ipmitool import Ipmitool
+        from pyipmi import Session
+
+        def new_session(cfg, iface):
+            ses = Session()
+            ses.interface = iface
+            ses.set_session_type_rmcp(cfg['host'], cfg['port'])
+            ses.set_session_type_serial(cfg['serial_port'], cfg['baud'])
+            ses.set_priv_level(LEVEL_WORDS[cfg['level']])
+            if cfg['auth'] is not None:
+                a = _auth(cfg['auth'])
+                ses.set_auth_type_user(a[0], a[1])
+            return ses
+
+        cfg = dict(DEFAULT_SETTINGS, **case.get('session', {}))
+        out = []
+        try:
+            i = Ipmitool(interface_type=case['iface'], cipher=case.get('cipher'))
+        except Exception as e:  # noqa
+            return {'stub': work.stub, 'steps': [], 'construct': tag_of(e)}
+        i.IPMITOOL_PATH = work.stub
+        ses = new_session(cfg, i)
+        i.establish_session(ses)
+        real_run = i._run_ipmitool
+        cur = {}
+
+        def recording(cmd):
+            rec = cur['rec']
+            rec['cmd'] = cmd
+            o, rc = real_run(cmd)
+            rec['rc'] = rc
+            rec['stderr_captured'] = o.endswith(b'E')
+            body = o[:-1] if o.endswith(b'E') else o
+            parts = body.split(b'\0')
+            rec['argv'] = [os.fsdecode(x) for x in parts[:-1]] if len(parts) > 1 and parts[-1] == b'' else None
+            rec['commands'] = rec.get('commands', 0) + 1
+            return cur['reply']
+        i._run_ipmitool = recording
+        targets = {}
+        with work:
+            for st in case['steps']:
+                do = st['do']
+                if do == 'set':
+                    if 'auth' in st:
+                        cfg['auth'] = st['auth']
+                        if st['auth'] is None:
+                            ses.auth_type = Session.AUTH_TYPE_NONE
+                        else:
+                            a = _auth(st['auth'])
+                            ses.set_auth_type_user(a[0], a[1])
+                    if 'host' in st or 'port' in st:
+                        cfg['host'], cfg['port'] = st.get('host', cfg['host']), st.get('port', cfg['port'])
+                        ses.set_session_type_rmcp(cfg['host'], cfg['port'])
+                    if 'level' in st:
+                        cfg['level'] = st['level']
+                        ses.set_priv_level(LEVEL_WORDS[st['level']])
+                    out.append(None)
+                    continue
+                if do == 'establish':
+                    if st.get('fresh'):
+                        ses = new_session(cfg, i)
+                    i.establish_session(ses)
+                    out.append(None)
+                    continue
+                rec = {'cmd': None, 'argv': None, 'rc': None, 'stderr_captured': None, 'raised': None, 'ret': None}
+                cur['rec'] = rec
+                rp = st.get('reply')
+                cur['reply'] = (b' 00\n', 0) if rp is None else (from_cps(rp['output']).encode('latin-1'), rp['rc'])
+                try:
+                    if do == 'ping':
+                        if rp is None:
+                            cur['reply'] = (b'', st.get('rc', 0))
+                        i.rmcp_ping()
+                        rec['ret'] = 'returned'
+                    elif do == 'accessible':
+                        if rp is None:
+                            cur['reply'] = (b'', st.get('rc', 0))
+                        rec['ret'] = 'accessible=%s' % i.is_ipmc_accessible(None)
+                    else:
+                        key = tgt_token(st.get('target'))
+                        if key not in targets:           # the same Target object serves every request to that target
+                            targets[key] = real_target(st.get('target'))
+                        rec['ret'] = 'ok ' + lean.hexs(i.send_and_receive_raw(targets[key], st['lun'], st['netfn'],
+                                                                             bytes(bytearray(st['raw']))))
+                except Exception as e:  # noqa
+                    rec['raised'] = tag_of(e)
+                out.append(rec)
+        return {'stub': work.stub, 'steps': out}
+    finally:
+        work.cleanup()
+
+
+def effective_cases(case):
+    """the single-call case every call step amounts to (settings in force at that moment); None for other steps"""
+    cfg = dict(DEFAULT_SETTINGS, **case.get('session', {}))
+    out = []
+    for st in case['steps']:
+        if st['do'] == 'set':
+            for k in ('auth', 'host', 'port', 'level'):
+                if k in st:
+                    cfg[k] = st[k]
+            out.append(None)
+        elif st['do'] == 'establish':
+            out.append(None)
+        else:
+            c = {'op': 'ping' if st['do'] in ('ping', 'accessible') else 'raw', 'iface': case['iface'],
+                 'host': cfg['host'], 'port': cfg['port'], 'level': cfg['level'], 'auth': _auth(cfg['auth']),
+                 'serial_port': cfg['serial_port'], 'baud': cfg['baud']}
+            if case.get('cipher') is not None:
+                c['cipher'] = case['cipher']
+            if c['op'] == 'raw':
+                c.update(target=st.get('target'), lun=st['lun'], netfn=st['netfn'], raw=st['raw'])
+            out.append((c, dict(cfg)))
+    return out
+
+
+class _Collect(object):
+    def __init__(self, ctx=None):
+        self.ctx = ctx
+        self.violations = []
+
+    def violate(self, signature, what, case, expected=None, observed=None):
+        self.violations.append({'signature': signature, 'what': what, 'case': case, 'expected': expected,
+                                'observed': observed})
+
+    def disagree(self, *a, **k):
+        if self.ctx is not None:
+            self.ctx.disagree(*a, **k)
+
+    def count(self, *a, **k):
+        if self.ctx is not None:
+            self.ctx.count(*a, **k)
+
+
+def expected_argv(eff, stub):
+    if eff['op'] == 'ping' and eff['iface'] == 'serial-terminal':
+        return None
+    return twin_argv(eff, stub)
+
+
+def history_findings(case, res, ctx=None, drv=None, var=None):
+    """Property oracle, step by step.  -> [(step, signature, what, expected, observed)]"""
+    found = []
+    effs = effective_cases(case)
+    stub = res['stub']
+    calls = [(k, effs[k][0], res['steps'][k]) for k in range(min(len(effs), len(res['steps']))) if effs[k] is not None]
+    el = md = wd = [None] * len(calls)
+    if drv is not None:
+        el = drv.ask_many([spec_line(e, stub) for _, e, _ in calls])
+        md = drv.ask_many([model_line(e, var, stub) for _, e, _ in calls])
+        wd = drv.ask_many([('words ' + enc(g['cmd'])) if g['cmd'] is not None else 'ping' for _, _, g in calls])
+    for (k, eff, got), e_l, m_d, w_d in zip(calls, el, md, wd):
+        expected = expected_argv(eff, stub)
+        if expected is not None and e_l is not None:
+            la = parse_argv(e_l)
+            if la != expected and ctx is not None:
+                ctx.disagree('spec-twin', jcase(eff), e_l[:300], repr(expected)[:300])
+            expected = la
+        st = case['steps'][k]
+        g = dict(got)
+        own_error = None
+        if st['do'] != 'raw' or st.get('reply') is not None:
+            # what the call raises is decided by the canned reply, not by the command line
+            own_error, g['raised'] = g['raised'], None
+            if g['cmd'] is None and own_error is not None and expected is not None:
+                g['raised'] = own_error          # raised before any command was started
+        col = _Collect(ctx)
+        judge_shell(col, eff, g, expected, w_d if g['cmd'] is not None else None, m_d if st.get('reply') is None and
+                    st['do'] == 'raw' or g['cmd'] is not None else None, 'history', quiet=(drv is None))
+        for v in col.violations[:1]:
+            found.append((k, v['signature'], v['what'], v['expected'], v['observed']))
+        if got.get('commands', 0) > 1:
+            found.append((k, 'C19:more-than-one-command', 'one call started the program %d times' % got['commands'],
+                          1, got['commands']))
+        rp = st.get('reply')
+        if rp is not None and st['do'] == 'raw':
+            ret = got['raised'] or got['ret']
+            if rp.get('want') is not None and ret != rp['want']:
+                found.append((k, 'C19:reply:%s' % rp['label'], 'send_and_receive_raw does not return what the property '
+                              'demands for this ipmitool output', rp['want'], ret))
+            if drv is not None:
+                m = drv.ask('recv %d %s' % (rp['rc'], enc(from_cps(rp['output']))))
+                if m != ret and ctx is not None:
+                    ctx.disagree('recv-history', dict(case, step=k), m, ret)
+    return found
+
+
+def _step_text(st):
+    if st['do'] == 'set':
+        parts = []
+        if 'auth' in st:
+            parts.append('auth=%s' % ('NONE' if st['auth'] is None else [ascii(x) for x in _auth(st['auth'])]))
+        parts += ['%s=%s' % (k, st[k]) for k in ('host', 'port', 'level') if k in st]
+        return 'session settings changed: ' + ', '.join(parts)
+    if st['do'] == 'establish':
+        return 'establish_session(%s)' % ('a new Session with the same settings' if st.get('fresh') else 'the same Session')
+    if st['do'] == 'raw':
+        rp = st.get('reply')
+        return 'send_and_receive_raw(target %s, lun %d, netfn %d, %d bytes)%s' % (
+            tgt_token(st.get('target')), st['lun'], st['netfn'], len(st['raw']),
+            '' if rp is None else ' answered with %s rc=%d' % (ascii(from_cps(rp['output']))[:80], rp['rc']))
+    return {'ping': 'rmcp_ping()', 'accessible': 'is_ipmc_accessible()'}[st['do']] + \
+        (' (program exits with %d)' % st['rc'] if st.get('rc') else '')
+
+
+HIST_TARGETS = [None, ['a', 0x20], ['a', 0x82], ['r', 0, [[0x81, 0x20, 7], [0x20, 0x82, 0]]],
+                ['r', 0, [[0x81, 0x20, 0], [0x20, 0x82, 7], [0x20, 0x72, 0]]]]
+HIST_AUTHS = [None, ('admin', 'secret'), ('root', 'pw 1'), ('', ''), ('a"b$c`d\\e', '$HOME `id`'), ('admin', 'other')]
+
+
+def _raw_step(rng, target=None, reply=None):
+    st = {'do': 'raw', 'target': target if target is not None else rng.choice(HIST_TARGETS), 'lun': rng.randrange(4),
+          'netfn': rng.randrange(64), 'raw': [rng.randrange(256) for _ in range(rng.choice([1, 2, 5]))]}
+    if reply is not None:
+        st['reply'] = reply
+    return st
+
+
+def gen_histories(ctx, rng):
+    """(label, case)"""
+    out = []
+
+    def add(label, iface, auth, steps, cipher=None, **ses):
+        c = {'kind': 'history', 'iface': iface, 'cipher': cipher,
+             'session': dict({'auth': _jauth(auth)}, **ses), 'steps': steps}
+        out.append((label, c))
+    ping, acc = {'do': 'ping'}, {'do': 'accessible'}
+    for iface in ('lan', 'lanplus', 'open', 'serial-terminal'):
+        for auth in (None, ('admin', 'secret'), ('a"b$c`d\\e', 'p w')):
+            r = lambda: _raw_step(rng)      # noqa: E731
+            add('ping>raw', iface, auth, [ping, r()])
+            add('raw>ping', iface, auth, [r(), ping])
+            add('accessible>raw>ping>raw', iface, auth, [acc, r(), ping, r()])
+            add('raw>raw', iface, auth, [r(), r(), r()])
+            add('failed-ping>raw>ping', iface, auth, [dict(ping, rc=1), r(), dict(acc, rc=1), ping])
+            for other in (None, ('admin', 'secret'), ('admin', 'other'), ('root', 'secret')):
+                if other == auth:
+                    continue
+                chg = {'do': 'set', 'auth': _jauth(other)}
+                add('raw>auth-changed>raw', iface, auth, [r(), chg, r()])
+                add('ping>auth-changed>raw>ping', iface, auth, [ping, chg, r(), ping])
+                add('raw>auth-changed>established-again>ping>raw', iface, auth,
+                    [r(), chg, {'do': 'establish', 'fresh': bool(rng.randrange(2))}, ping, r()])
+            add('ping>established-again>raw', iface, auth, [ping, {'do': 'establish', 'fresh': True}, r()])
+            add('raw>established-again>ping', iface, auth, [r(), {'do': 'establish', 'fresh': False}, ping])
+            add('raw>host-port-changed>raw>ping', iface, auth,
+                [r(), {'do': 'set', 'host': 'bmc-7.example.org', 'port': 6230}, r(), ping])
+            add('raw>level-changed>raw', iface, auth, [r(), {'do': 'set', 'level': 2}, r(), {'do': 'set', 'level': 3}, r()],
+                cipher=rng.choice([None, 3, '17']))
+            t = rng.choice(HIST_TARGETS[3:])
+            add('same-target-object-twice', iface, auth, [_raw_step(rng, t), _raw_step(rng, ['a', 0x20]), _raw_step(rng, t)])
+    n = 60 if ctx.tier == 'quick' else 1500
+    for it in range(n):
+        iface = rng.choice(['lan', 'lanplus', 'lan', 'lanplus', 'open', 'serial-terminal'])
+        steps = []
+        ncalls = rng.choice([2, 2, 3, 3, 4])
+        while sum(1 for s_ in steps if s_['do'] in ('ping', 'accessible', 'raw')) < ncalls:
+            x = rng.random()
+            if x < 0.4:
+                steps.append(_raw_step(rng))
+            elif x < 0.6:
+                steps.append(dict(ping, rc=rng.choice([0, 0, 0, 1])))
+            elif x < 0.7:
+                steps.append(dict(acc, rc=rng.choice([0, 0, 1])))
+            elif x < 0.85:
+                chg = {'do': 'set'}
+                y = rng.random()
+                if y < 0.6:
+                    chg['auth'] = _jauth(rng.choice(HIST_AUTHS))
+                elif y < 0.8:
+                    chg['host'], chg['port'] = rand_host(rng), rng.choice([623, 1, 65535])
+                else:
+                    chg['level'] = rng.choice([2, 3, 4])
+                steps.append(chg)
+            else:
+                steps.append({'do': 'establish', 'fresh': bool(rng.randrange(2))})
+        add('random', iface, rng.choice(HIST_AUTHS), steps, cipher=rng.choice([None, None, 0, '0', 3, 254]),
+            host=rand_host(rng), port=rng.choice([623, 623, 7001]), level=rng.choice([2, 3, 4]))
+    # reply side: one long-lived object reads a sequence of replies, each judged on its own
+    rcases = [c for c in reply_cases(ctx, ctx.rng('history-replies')) if c[0] != 'noise']
+    judged = [c for c in rcases if c[3] is not None]
+    for it in range(24 if ctx.tier == 'quick' else 400):
+        iface = ('lan', 'lanplus', 'open', 'serial-terminal')[it % 4]
+        steps = []
+        for _ in range(rng.choice([3, 4, 6])):
+            label, o, rc, want = rng.choice(judged) if rng.random() < 0.9 else rng.choice(rcases)
+            if iface == 'serial-terminal' and 'connection' in label:
+                continue
+            steps.append(_raw_step(rng, ['a', 0x20], {'label': label, 'output': cps(o), 'rc': rc, 'want': want}))
+        if rng.random() < 0.3:
+            steps.insert(rng.randrange(len(steps) + 1), dict(ping, rc=rng.choice([0, 1])))
+        add('replies', iface, ('admin', 'secret'), steps)
+    return out
+
+
+def _history_sig(sig):
+    return 'C19:history:' + sig[len('C19:'):]
+
+
+_PRISTINE = None
+
+
+def _preload():
+    import pyipmi  # noqa: F401
+    import pyipmi.interfaces.ipmitool  # noqa: F401
+
+
+def _pristine():
+    global _PRISTINE
+    if _PRISTINE is None:
+        try:
+            _PRISTINE = pristine.Pristine({'history': exec_history}, _preload)
+        except OSError:
+            _PRISTINE = False
+    return _PRISTINE or None
+
+
+def _alone(case, k):
+    """the failing call alone, on a new object that carries the settings in force at that step"""
+    cfg = effective_cases(case)[k][1]
+    return dict(case, session=cfg, steps=[case['steps'][k]])
+
+
+def run_histories(ctx, var):
+    p = _pristine()
+    drv = ctx.driver('drv_c19') if _driver_ok(ctx) else None
+    rng = ctx.rng('history')
+    ncalls = 0
+    for label, case in gen_histories(ctx, rng):
+        try:
+            res = p.call('history', case) if p is not None else exec_history(case)
+        except pristine.PristineError as e:
+            ctx.notes.append('history %s could not be executed: %s' % (label, str(e)[-200:]))
+            continue
+        steps = case['steps']
+        ctx.case(('history', case['iface'], repr(case['cipher']), repr(sorted(case['session'].items())), repr(steps)))
+        ctx.count('history:' + label)
+        ctx.count('history:iface=' + case['iface'])
+        calls = [s_['do'] for s_ in steps if s_['do'] in ('ping', 'accessible', 'raw')]
+        ncalls += len(calls)
+        ctx.count('history:calls=%d' % len(calls))
+        for a, b in zip(calls, calls[1:]):
+            ctx.count('history:%s-then-%s' % (a, b))
+        found = history_findings(case, res, ctx, drv, var)
+        if not found:
+            continue
+        k, sig, what, exp, obs = found[0]
+        alone = None
+        if p is not None and res.get('steps'):
+            try:
+                ac = _alone(case, k)
+                alone = [f for f in history_findings(ac, p.call('history', ac)) if f[1] == sig]
+            except pristine.PristineError:
+                alone = None
+        if alone:
+            ac = dict(_alone(case, k), label='single call')
+            ctx.violate(sig, what, ac, expected=alone[0][3], observed=alone[0][4])
+            continue
+        case, res = shrink_history(p, case, res, sig)
+        k, sig, what, exp, obs = [f for f in history_findings(case, res) if f[1] == sig][0]
+        ctx.violate(_history_sig(sig),
+                    'step %d of a history on one Ipmitool object (%s): %s; the same call on a new object with the same '
+                    'settings is right' % (k, _step_text(case['steps'][k]), what), dict(case, label=label),
+                    expected=exp, observed=obs)
+    ctx.extra['history_calls'] = ncalls
+
+
+def shrink_history(p, case, res, sig):
+    steps = list(case['steps'])
+    progress, budget = True, 30
+    while p is not None and progress and budget > 0:
+        progress = False
+        for k in range(len(steps) - 1, -1, -1):
+            if len(steps) <= 1:
+                break
+            cand = dict(case, steps=steps[:k] + steps[k + 1:])
+            budget -= 1
+            try:
+                r2 = p.call('history', cand)
+            except pristine.PristineError:
+                continue
+            if any(f[1] == sig for f in history_findings(cand, r2)):
+                steps, res, progress = cand['steps'], r2, True
+                break
+    return dict(case, steps=steps), res
+
+
+# ---------------------------------------------------------------------------------------------
 
 def run(ctx):
+    _pristine()          # forked now: this process has not used the back-end yet
     work = Work()
     try:
         var = probe_variant()
@@ -844,6 +1256,8 @@ def run(ctx):
         # 3. reply side
         run_reply(ctx, var)
         run_e2e(ctx, work)
+        # 4. histories on one object
+        run_histories(ctx, var)
         leftovers = sorted(os.listdir(os.path.join(work.dir, 'cwd')))
         if leftovers:
             ctx.notes.append('command lines broken by unescaped credentials created %d files in the scratch cwd, e.g. %s'
@@ -865,6 +1279,28 @@ def replay(ctx, v):
     case = v['case']
     work = Work()
     try:
+        if case.get('kind') == 'history':
+            res = exec_history(case)
+            found = history_findings(case, res)
+            bad = dict((f[0], f) for f in reversed(found))
+            effs = effective_cases(case)
+            print('one Ipmitool(interface_type=%r, cipher=%r) object, session %s' % (
+                case['iface'], case.get('cipher'), dict(case['session'], auth=None if case['session'].get('auth') is None
+                                                       else [ascii(x) for x in _auth(case['session']['auth'])])))
+            for k, st in enumerate(case['steps']):
+                print('step %d: %s' % (k, _step_text(st)))
+                got = res['steps'][k] if k < len(res['steps']) else None
+                if got is None:
+                    continue
+                exp = expected_argv(effs[k][0], res['stub'])
+                print('    program got  : %s%s' % (None if got['argv'] is None else [ascii(x) for x in got['argv'][1:]],
+                                                  '' if not got['raised'] else '  raised ' + got['raised']))
+                print('    must receive : %s' % (None if exp is None else [ascii(x) for x in exp[1:]]))
+                if st.get('reply') is not None:
+                    print('    returned %s, property demands %s' % (got['raised'] or got['ret'], st['reply'].get('want')))
+                if k in bad:
+                    print('    WRONG: %s' % bad[k][1])
+            return bool(found)
         if case.get('kind') == 'reply':
             o = from_cps(case['output'])
             code = real_recv(o.encode('latin-1'), case['rc'])
